@@ -473,6 +473,9 @@ def const(ctx: Any) -> List[Ob]:
     obs.append(ob(R, rd, c[0] if c else 'randint', 'the jitter is drawn from the 20-120 ms interval', len(c) == 1 and isinstance(c[0].args[0], ast.Starred) and norm(c[0].args[0].value) == '_AVOID_SYNC_DELAY_RANDOM_INTERVAL' and tuple(iv) == (20, 120)))
     raise_ = [n for n in walk_local_ordered(rq.node) if isinstance(n, ast.If) and 'QM_QUESTION' in norm(n.test) and any(isinstance(b, ast.Assign) and norm(b.targets[0]) == roles['delay'] and norm(b.value) == '_DUPLICATE_QUESTION_INTERVAL' for b in n.body)]
     obs.append(ob(R, rq, raise_[0].test if raise_ else 'if this_question_type is QM_QUESTION and delay < ...', 'after a QM query the delay is raised to the duplicate-question interval', len(raise_) == 1))
+    if raise_:
+        compared = [norm(x.left) for x in ast.walk(raise_[0].test) if isinstance(x, ast.Compare) and any('QM_QUESTION' in norm(c_) for c_ in x.comparators)] + [norm(c_) for x in ast.walk(raise_[0].test) if isinstance(x, ast.Compare) and 'QM_QUESTION' in norm(x.left) for c_ in x.comparators]
+        obs.append(ob(R, rq, raise_[0].test, 'the question type tested there is the one of the query just built in this round (not the caller\'s forced type, which is usually None)', compared == [roles['qtype']], f'tests `{compared}`; the type of this round is `{roles["qtype"]}`'))
     init_d = prog.func('zeroconf._services.info.ServiceInfo._get_initial_delay')
     obs.append(ob(R, init_d, 'return _LISTENER_TIME', 'the second query follows after 200 ms plus jitter', prog.const('zeroconf.const', '_LISTENER_TIME') == 200 and any(isinstance(r, ast.Return) and norm(r.value) == '_LISTENER_TIME' for r in walk_local_ordered(init_d.node))))
     gq = prog.func('zeroconf._services.info.ServiceInfo._generate_request_query')
